@@ -71,6 +71,49 @@ CHECKS["C19"] = dict(
          "Signed magnitudes below 2^63; non-minimal forms up to 10 bytes; little-endian host only.",
     design="4 C19")
 
+CHECKS["C03"] = dict(
+    level="model_checking",
+    technique="TLA+ spec Gdsii.tla (data model, framing, encoder with explicit choices, strict "
+              "decoder) checked by TLC; spec-emitted streams loaded by read_gds and validated; "
+              "gdstk-written files decoded by the strict decoder inside TLC",
+    text="The GDSII stream format is specified from the format definition with an encoder whose "
+         "free choices are explicit and a strict grammar decoder; TLC proves Decode(Encode(L,ch))=L, "
+         "that dropping a mandatory record is rejected and that no prefix is accepted. Every "
+         "enumerated (layout, choices) stream is loaded by read_gds and the projected library must "
+         "equal the layout's meaning; libraries built through the API are saved and the written "
+         "bytes must be accepted by the strict decoder and decode to the saved library.",
+    note="Trusted: TLC, my transcription of the GDSII manual, harness projection. Element palette "
+         "(26 elements, all ordered pairs), not arbitrary layouts; NODE/TEXTNODE excluded; AREF "
+         "lattices consistent with the placement; multi-record XY only by splitting small lists.",
+    design="4 C03")
+CHECKS["C01"] = dict(
+    level="model_checking",
+    technique="TLA+ normal form Norm (GdsApi.tla) over Gdsii.tla's meaning; TLC-enumerated "
+              "API-level libraries saved and re-loaded by gdstk over 3 cycles; projections "
+              "validated by TLC against Norm",
+    text="TLC enumerates API-level library descriptions on a quarter-dbu lattice (every element "
+         "kind x every repetition kind x transforms x properties), the harness builds them with "
+         "the C++ API and runs save/load three times; TLC checks each reloaded projection and the "
+         "strictly decoded file against Norm(description) (rounding to the grid, repetitions "
+         "expanded, arrays as placement sets, simple paths by centre line/width/end/extension, "
+         "GDSII properties as maps, units and timestamps).",
+    note="Trusted: TLC, harness builder/projection. Not yet covered: non-simple paths and vertex "
+         "limits (need the region semantics of Region.tla), strings near 64 kB.",
+    design="4 C01")
+CHECKS["C17"] = dict(
+    level="model_checking",
+    technique="TLA+ views (Info, FilterM, RawViewM, Restamp) over the strictly decoded stream of "
+              "Gdsii.tla; every partial reader run on spec-encoded and gdstk-written files; logs "
+              "validated by TLC",
+    text="For each file the harness runs gds_info, gds_units, gds_timestamp (get/set), read_gds "
+         "with tag filters and target units, and read_rawcells -> write_gds -> read_gds; TLC decodes "
+         "the same bytes strictly and checks every result against the corresponding view of the "
+         "decoded stream (counts, tag sets, units, filtered / rescaled / raw-copied layouts, "
+         "byte-exact restamping).",
+    note="Trusted: TLC, Gdsii.tla decoder, harness projection. Files: C03's encoder cases and "
+         "C01's API-built libraries.",
+    design="4 C17")
+
 NOT_YET = {}
 
 
